@@ -108,13 +108,13 @@ Section View.
     apply String.eqb_eq in A. apply String.eqb_eq in B. congruence.
   Qed.
 
-  Lemma mpath_is_str mi a : mpath_is mi a = true -> mpath_str mi = a.
+  Lemma mpath_is_str mi a : mpath_is mi a = true -> mpath_str mi = unraw a.
   Proof.
     unfold mpath_is, mpath_str. destruct (meta_path mi) as [p|]; [|discriminate]. unfold is_ident, get_ident.
     destruct p as [pi pl ps]. cbn [p_leading p_segs]. destruct pl; [discriminate|].
     destruct ps as [|[id args] [|x r]]; try discriminate.
     destruct (str_eqb args ""); [|discriminate]. unfold str_eqb. intros A. apply String.eqb_eq in A.
-    unfold path_to_string. cbn. exact A.
+    unfold path_to_string. cbn. now subst.
   Qed.
 
   (** a state reached without errors never holds a `post` other than map / and_then *)
@@ -151,12 +151,12 @@ Section View.
       - destruct (conv (TOption (TSpanned TBool)) mi) as [v|e|m]; [destruct (as_bool v) as [b|]|..]; cbn; unfold abs; rewrite ?AS; cbn; auto.
         destruct b, (f_flatten f); cbn; auto. }
     destruct (mpath_is mi "map") eqn:N5.
-    { cbn [orb]. rewrite (mpath_is_str mi "map" N5).
+    { cbn [orb]. rewrite (mpath_is_str mi "map" N5). cbn [unraw].
       destruct (f_post f) as [t0|] eqn:AP.
       - destruct (str_eqb "map" t0); destruct (conv TPath mi); cbn; unfold abs; rewrite ?AP; cbn; auto.
       - destruct (conv TPath mi); cbn; unfold abs; rewrite ?AP; cbn; auto. }
     destruct (mpath_is mi "and_then") eqn:N6.
-    { cbn [orb]. rewrite (mpath_is_str mi "and_then" N6).
+    { cbn [orb]. rewrite (mpath_is_str mi "and_then" N6). cbn [unraw].
       destruct (f_post f) as [t0|] eqn:AP.
       - destruct (str_eqb "and_then" t0); destruct (conv TPath mi); cbn; unfold abs; rewrite ?AP; cbn; auto.
       - destruct (conv TPath mi); cbn; unfold abs; rewrite ?AP; cbn; auto. }
